@@ -179,20 +179,6 @@ func e2RunTrace(r *verifkit.Run, prop string, i int, agg *e2Agg, prefix string) 
 	fs := t.judge(true, true)
 	agg.merge(w, t)
 	r.Eval(1)
-	if os.Getenv("E2_DEBUG") != "" {
-		for i, e := range t.evs {
-			if e.K == "log" && strings.Contains(e.Note, os.Getenv("E2_DEBUG")) {
-				lo := max(0, i-25)
-				var l []map[string]any
-				for _, x := range t.evs[lo:min(len(t.evs), i+3)] {
-					l = append(l, x.J())
-				}
-				b, _ := json.Marshal(l)
-				r.Note("DEBUG %s: %s", caseID, b)
-				break
-			}
-		}
-	}
 
 	nStrat, nTimer := 0, 0
 	for _, e := range t.evs {
